@@ -59,8 +59,8 @@ THR = 1.5 * np.pi
 FNAMES = ['mean', 'max', 'sum', 'len', 'first', 'last', 'nunique']
 RULE = ('sequences: exhaustive over a 10-operation alphabet up to length 3 (quick) / 4 (thorough) on three alphabet phases (one shorter on the zero-cycle phase), plus random '
         'sequences up to length 12 on synthetic phases (variable, noisy, occasionally reversing frequency; 1-400 samples; phases without any '
-        'wrap included); operations {compute metric (cycle / augmented) with %s, add metric (right and wrong length, reserved names), '
-        'compute timings, pick subset with 1-3 conditions over == != < <= > >= and negative / decimal / exponent literals, chain timings, '
+        'wrap included); operations {compute metric (cycle / augmented) with %s, add metric (right and wrong length, reserved names), add an integer metric from a STORED metric (add_cycle_metric(name, C.metrics[src], dtype=int); values taken from the observation before the operation; a missing src is rejected by the harness without calling the library), '
+        'compute timings, pick subset with 1-3 conditions over == != < <= > >= and negative / decimal / exponent literals and near-miss literals 2e-6 relative / 1e-9 absolute off a stored value, chain timings, '
         'chain metric, export all / subset / conditions, get_matching_cycles}; every case runs with cache on and off; about 1 percent of the '
         'compute-metric operations get a value vector of the wrong length (outside the domain: compared with the model, not judged). Non-trivial: '
         'at least two cycles and an operation sequence that selects a proper non-empty subset or stores a computed metric.' % FNAMES[:6])
@@ -119,6 +119,14 @@ def apply_op(C, op, n):
         r = C.add_cycle_metric(op['name'], np.array(op['vals'], dtype=float))
         if isinstance(r, Exception):
             # the pinned code RETURNS its ValueError: canonicalised to a rejection (see ASSUMPTIONS)
+            raise r
+    elif k == 'add_from':
+        # a stored metric handed back as the values of a new integer metric: add_cycle_metric(name, C.metrics[src], dtype=int)
+        # (round 6, C15 patch 2: the int branch replaced NaN by -1 IN the array it was given - here a stored metric)
+        if op['src'] not in C.metrics:
+            raise ValueError('harness: no metric %r to copy from' % op['src'])   # harness-side rejection, the library is not called
+        r = C.add_cycle_metric(op['name'], C.metrics[op['src']], dtype=int)
+        if isinstance(r, Exception):
             raise r
     elif k == 'timings':
         C.compute_cycle_timings()
@@ -194,16 +202,30 @@ def _cond_slots(conds):
     return out
 
 
-def encode(case, cache):
+def _int_vals(v):
+    """what add_cycle_metric(dtype=int) stores for the float values v: NaN -> -1, truncation towards zero"""
+    return [-1.0 if x is None else float(math.trunc(x)) for x in v]
+
+
+def encode(case, cache, trace=None):
+    """`trace` (the implementation's observations) is needed only for `add_from`: the values handed to the library there are the
+    stored metric `src` AS OBSERVED BEFORE the operation; the model stores their integer form under `name` and - by the frame
+    theorem C15 (`step_sget_other`) - leaves every other metric, `src` included, as it was."""
     step = case.get('step') or _cyc.DEFAULT_STEP
     edge = case.get('edge') or _cyc.DEFAULT_EDGE
     vecs = [[float(v) for v in case['phase']], [len(case['probe'])]] + _cond_slots(case['probe'])
-    for op in case['ops']:
+    for idx, op in enumerate(case['ops']):
         k = op['op']
         if k == 'compute':
             vecs += [[1, FNAMES.index(op['f']), 0 if op['mode'] == 'cycle' else 1], _chars(op['name']), op['vals']]
         elif k == 'add':
             vecs += [[2], _chars(op['name']), op['vals']]
+        elif k == 'add_from':
+            src = None
+            if trace is not None and idx < len(trace):
+                src = dict((n, v) for n, v in trace[idx]['metrics']).get(op['src'])
+            # no such metric (or no trace): a vector of impossible length, which the model rejects like the harness does
+            vecs += [[2], _chars(op['name']), _int_vals(src) if src is not None else [0.0] * (len(case['phase']) + 1)]
         elif k == 'timings':
             vecs += [[3]]
         elif k == 'pick':
@@ -574,8 +596,20 @@ def check_trace(case, tr, tag):
         if op and op['op'] == 'add' and st['st'] == 'ok' and len(op['vals']) == K:
             if not _leq(md.get(op['name'], []), [float(v) for v in op['vals']]):
                 fail('added-metric-not-stored', i, '%r' % op['name'])
+        if op and op['op'] == 'add_from' and prev is not None:
+            pmd = dict((n, v) for n, v in prev['metrics'])
+            if op['src'] in pmd and op['src'] != op['name'] and len(pmd[op['src']]) == K:
+                if st['st'] != 'ok':
+                    fail('add-from-stored-metric-raises:' + st['st'], i, 'add_cycle_metric(%r, metrics[%r], dtype=int)' % (op['name'], op['src']))
+                else:
+                    if not _leq(md.get(op['name'], []), _int_vals(pmd[op['src']])):
+                        fail('added-metric-not-stored', i, '%r from %r' % (op['name'], op['src']))
+                    if not _leq(md.get(op['src'], []), pmd[op['src']]):
+                        # every stored metric stays what it was computed to be: adding ANOTHER metric must not rewrite it
+                        fail('stored-metric-changed-by-adding-another', i, 'metric %r was %s, is %s after add_cycle_metric(%r, metrics[%r], dtype=int)'
+                             % (op['src'], pmd[op['src']][:10], md.get(op['src'], [])[:10], op['name'], op['src']))
         # ---- selection -----------------------------------------------------------------------
-        if op and op['op'] in ('add', 'compute', 'chain_metric') and op['name'] == 'chain_ind' and st['st'] == 'ok':
+        if op and op['op'] in ('add', 'add_from', 'compute', 'chain_metric') and op['name'] == 'chain_ind' and st['st'] == 'ok':
             chain_ind_user = True
         if op and op['op'] == 'pick':
             valids = oracle_matching(prev['metrics'], op['conds'], K)
@@ -720,7 +754,8 @@ class _Base(Stream):
         return {'on': run_impl(case, 1), 'off': run_impl(case, 0)}
 
     def ops(self, case, out):
-        return [encode(case, 1), encode(case, 0)]
+        tr = (lambda k: out[k].get('trace') if isinstance(out, dict) and isinstance(out.get(k), dict) else None)
+        return [encode(case, 1, tr('on')), encode(case, 0, tr('off'))]
 
     def compare(self, case, out, results):
         if isinstance(out, ImplError):
@@ -944,6 +979,15 @@ class Random(_Base):
         ph = REG * 4 + [0.1, 3.0]
         irregular = [0.1, 3.1, 5.0, 4.0, 6.0, 0.2, 3.0, 6.1, 0.1, 3.1, 0.2, 3.1, 6.2, 0.3]
         return [
+            # round 6, C15 patch 2: an augmented metric (NaN for the first cycle) handed back as an integer metric must stay as it is
+            {'phase': ph, 'step': None, 'edge': None, 'probe': ['a>=0'],
+             'ops': [{'op': 'compute', 'name': 'a', 'f': 'mean', 'mode': 'augmented', 'vals': _idx(n)},
+                     {'op': 'add_from', 'name': 'ai', 'src': 'a'},
+                     {'op': 'match', 'conds': ['a<0']},
+                     {'op': 'pick', 'conds': ['a>=0']},
+                     {'op': 'export', 'mode': 'subset'},
+                     {'op': 'add_from', 'name': 'zz', 'src': 'nope'},
+                     {'op': 'export', 'mode': 'all'}]},
             # round 6, C15 patch 1: `==` must mean exact equality - 1.000001 is not 1, 1e-9 is not 0 (np.isclose said it was)
             {'phase': ph, 'step': None, 'edge': None, 'probe': ['m==1'],
              'ops': [{'op': 'add', 'name': 'm', 'vals': [1.000001, 1.0, 1e-09, 0.0, 0.9999999]},
@@ -1099,6 +1143,8 @@ class Random(_Base):
                 ops.append({'op': 'add', 'name': nm, 'vals': v})
                 if kk == K:
                     know(nm, v)
+            elif r < 0.36:
+                ops.append({'op': 'add_from', 'name': rng.choice(user), 'src': rng.choice(user + ['duration', 'is_good'])})
             elif r < 0.44:
                 ops.append({'op': 'timings'})
                 know('duration', [1, 2, 3, n // max(K, 1)])
